@@ -32,6 +32,33 @@ impl Solve<TU, TE> for Succ {
 pub fn succ(u: T, v: T) -> Goal<TU, TE> { Goal::dynamic(Rc::new(Succ { u, v, mode: 0 })) }
 pub fn succ_head(u: T, v: T) -> Goal<TU, TE> { Goal::dynamic(Rc::new(Succ { u, v, mode: 1 })) }
 
+/// `d` is introduced inside the closure body: d is one of lo, hi and one of a, b is d.
+pub fn pick(a: T, b: T, lo: T, hi: T) -> Goal<TU, TE> {
+    proto_vulcan_closure!(|d| {
+        member(d, [lo, hi]),
+        conde {
+            a == d,
+            b == d,
+        }
+    })
+}
+
+/// Silent diverger made of a recursive closure with a fresh variable (an endless chain of pauses).
+pub fn nevero(x: T) -> Goal<TU, TE> {
+    proto_vulcan_closure!(|y| { nevero(y) })
+}
+
+/// Silent diverger usable inside `dfs { }` as well: every recursion is wrapped in a closure, so every search step is finite.
+pub fn spin<G: AnyGoal<TU, TE>>() -> proto_vulcan::goal::InferredGoal<TU, TE, G> {
+    proto_vulcan_closure!([true, spin()])
+}
+
+/// The same goal value solved twice in a row.
+pub fn twice(g: Goal<TU, TE>) -> Goal<TU, TE> {
+    let g2 = g.clone();
+    proto_vulcan!([g, g2])
+}
+
 const LIMIT: usize = 64;
 
 #[test]
